@@ -192,6 +192,19 @@ CHECKS = {
              "the persistent backends (gorm never rotates; out-of-order machine-record writes in bursts; gorm's flags right after a reopen).",
         technique="runtime monitor: independent reference tracer + reference log/query evaluator, differential across four backends, reopen scenarios",
         engine="components", design_ref="5/C17"),
+    "C18": dict(
+        level="exploration",
+        text="A source machine is piped to a target with Bind, BindMany, AddFlat+RemoveFlat, BindReady, BindConnected, BindErr and BindAny and driven by PRNG toggle bursts "
+             "(1..200 mutations, plain and Multi states, one issuing goroutine). The target is wrapped in an am.Api proxy that counts every forwarded call, records which source "
+             "transition forwarded it and in which order the calls reached the target, and can impose a schedule: natural, overtake (an arriving call is held until the next one was "
+             "applied: a schedule the Go scheduler may produce, every non-flat event being forwarded in its own goroutine) and busy (the target parked inside a handler during the burst). "
+             "Local targets and NetworkMachine targets over a loopback RPC pair. Judged at joint quiescence (every forwarding handler execution seen by the source tracer has been applied "
+             "by the proxy, both queues idle): target state active iff source state active, BindAny: equal active sets; no source mutation canceled, errored or blocked; with a stalled "
+             "network link the source mutation still returns and the target follows after the stall.",
+        note="Flat + local pipes are synchronous and not reordered by the proxy. Divergences are classified by whether the calls reached the target in source order; the reordered "
+             "class of the non-flat pipes, the check-then-act class of the flat pipes and BindAny's blocking Set on a network target are known findings (ten signatures).",
+        technique="runtime monitor: am.Api proxy with schedule points + source/target tracers, conservation (forwarded = applied) and final-state oracle at quiescence",
+        engine="components", design_ref="5/C18"),
     "C20": dict(
         level="exploration",
         text="reflect enumerates every exported method of *Machine, *Event, *Transition, *Mutation, S, Time, *TimeIndex, Clock, Schema and State (a 'surface' case reports how many, "
